@@ -1,5 +1,10 @@
 package core
 
+import (
+	"syscall"
+	"unsafe"
+)
+
 // Tape streams.  Keeping workload, schedule and fault choices on separate
 // streams means that deleting one operation does not shift the meaning of the
 // scheduling decisions (and vice versa) while shrinking.
@@ -21,6 +26,32 @@ type Tape struct {
 	rng    [NStreams]Rng
 	rec    [NStreams][]uint32
 	pos    [NStreams]int
+	// jfd, when > 0, receives every generated draw as it is made (5 bytes: stream, value),
+	// so that the driver can recover the tape of a run whose process died (a fatal error of
+	// the Go runtime inside the library cannot be recovered in-process).
+	jfd int
+}
+
+// JournalTo makes a generating tape write each draw to the file descriptor as it is made.
+func (t *Tape) JournalTo(fd int) { t.jfd = fd }
+
+//go:norace
+func journal(fd, s int, v uint32) {
+	b := [5]byte{byte(s), byte(v), byte(v >> 8), byte(v >> 16), byte(v >> 24)}
+	syscall.Syscall(syscall.SYS_WRITE, uintptr(fd), uintptr(unsafe.Pointer(&b[0])), 5)
+}
+
+// ReadJournal decodes a journal written through JournalTo.
+func ReadJournal(data []byte) Rec {
+	var rec Rec
+	for i := 0; i+5 <= len(data); i += 5 {
+		s := int(data[i])
+		if s >= NStreams {
+			break
+		}
+		rec[s] = append(rec[s], uint32(data[i+1])|uint32(data[i+2])<<8|uint32(data[i+3])<<16|uint32(data[i+4])<<24)
+	}
+	return rec
 }
 
 func NewTape(seed uint64) *Tape {
@@ -61,6 +92,9 @@ func (t *Tape) Draw(s int, n int) int {
 	}
 	t.rec[s] = t.rec[s][:p+1]
 	t.rec[s][p] = v
+	if t.jfd > 0 {
+		journal(t.jfd, s, v)
+	}
 	return int(v)
 }
 
